@@ -173,7 +173,9 @@ def o_c02(meta, ans, ctx):
     if a['S']['status'] != 'ok': return 'ser: serialization did not succeed'
     if a['E']['status'] != 'ok': return 'eps: deserialize_eps from an aligned buffer did not return a value'
     if erase_borrows(a['E']['val']) != meta['val']: return 'eps-value: the ε-copy result does not describe the original value'
-    if a['F']['status'] == 'ok' and erase_borrows(a['E']['val']) != a['F']['val']:
+    if a['F']['status'] != 'ok':
+        return 'agree: full-copy deserialization of the same bytes gives no value (%s) where ε-copy does' % a['F']['status']
+    if erase_borrows(a['E']['val']) != a['F']['val']:
         return 'agree: ε-copy and full-copy results differ'
     if a['E']['consumed'] != str(a['S']['count']): return 'eps-count: bytes consumed differ from bytes written'
     return None
@@ -208,7 +210,10 @@ def o_c07(meta, ans, ctx):
         a = parse_case_answer(ans)
         if a is None or a['S']['status'] != 'ok': return 'ser: serialization did not succeed'
         if a['S']['count'] != len(a['S']['hex']) // 2: return 'count: returned count differs from bytes handed to the writer'
-        if a['F']['status'] == 'ok' and int(a['F']['consumed']) != a['S']['count']: return 'full-count: full-copy consumed a different number of bytes'
+        # "either deserializer consumes exactly that many bytes": both must get through the stream (aligned placement)
+        if a['F']['status'] != 'ok': return 'full-consume: full-copy deserialization does not consume the serialized stream (%s)' % a['F']['status']
+        if int(a['F']['consumed']) != a['S']['count']: return 'full-count: full-copy consumed a different number of bytes'
+        if a['E']['status'] not in ('ok', '-'): return 'eps-consume: ε-copy deserialization does not consume the serialized stream (%s)' % a['E']['status']
         if a['E']['status'] == 'ok' and a['E']['consumed'] != str(a['S']['count']): return 'eps-count: ε-copy consumed a different number of bytes'
     return None
 
@@ -360,6 +365,8 @@ def o_c03(meta, ans, ctx):
         a = parse_case_answer(ans)
         if a is None or a['E']['status'] != 'ok':
             return None
+        if '@!' in a['E']['val']:
+            return 'elem-aligned: a borrowed slice or reference is not aligned for its element type (placement %d)' % meta['r']
         bad = [(o, u_) for (o, u_) in meta.get('blocks', []) if (meta['r'] + o) % u_ != 0]
         if bad:
             return 'aligned: a value was returned although the block at offset %d (unit %d) is misplaced' % bad[0]
@@ -369,6 +376,10 @@ def o_c03(meta, ans, ctx):
         if a is None or a['S']['status'] != 'ok' or a['E']['status'] != 'ok':
             return None   # C02's business
         n = a['S']['count']
+        # the harness prints '!' after '@' when the real pointer of a borrowed slice / reference is not a multiple of
+        # the native alignment of its element type (measured on the pointer, independent of the recorded unit)
+        if '@!' in a['E']['val']:
+            return 'elem-aligned: a borrowed slice or reference is not aligned for its element type (%s)' % a['E']['val'][max(0, a['E']['val'].index('@!') - 10):][:60]
         # every borrowed node points into the buffer (offsets are printed relative to it; '-' = outside)
         for kind, off in borrows_of(a['E']['val']):
             if off == '-':
